@@ -89,7 +89,7 @@ type Env struct {
 }
 
 func NewEnv() *Env {
-	e := &Env{FS: mockfs.New(), Model: map[uint32]*mfid{}, EverBound: map[int]bool{}, Classes: map[string]int{}, OpTimeout: 3 * time.Second, everUnbound: map[uint32]bool{}}
+	e := &Env{FS: mockfs.New(), Model: map[uint32]*mfid{}, EverBound: map[int]bool{}, Classes: map[string]int{}, OpTimeout: 8 * time.Second, everUnbound: map[uint32]bool{}}
 	e.FS.Populate()
 	e.FS.Hook = e.hook
 	e.Sess = p9p.SFileSys(e.FS)
